@@ -1,6 +1,6 @@
 #!/bin/bash
 # Real-code demonstrations of the genuine defects found by the contract checks (DESIGN.md §8).
-# usage: demo.sh <xcp-binary> <F1..F12>      exit 0 = behaviour correct, exit 1 = defect shown
+# usage: demo.sh <xcp-binary> <F1..F13>      exit 0 = behaviour correct, exit 1 = defect shown
 X=$1; WHICH=$2
 D=$(mktemp -d /tmp/xcpdemo.XXXXXX); trap 'rm -rf "$D"' EXIT; cd "$D" || exit 2
 case "$WHICH" in
@@ -74,5 +74,10 @@ F12) # --dereference: a link to a directory became an empty directory
     if [ $rc = 0 ] && [ ! -f out/s/l/f ]; then echo "DEFECT F12: 'xcp -r -L s out' exit 0 but out/s/l has no f: $(find out | sort | tr '\n' ' ')"; exit 1; fi
     if [ -L out/s/l ]; then echo "DEFECT F12: out/s/l is still a link"; exit 1; fi
     echo "F12 ok (exit $rc)"; exit 0;;
+F13) # --gitignore: a directory-only pattern excluded a symbolic link to a directory (git does not)
+    mkdir -p src/real out; echo x > src/real/f; ln -s real src/build; printf 'build/\n' > src/.gitignore
+    timeout 120 "$X" -r --gitignore src out >/dev/null 2>&1; rc=$?
+    if [ $rc = 0 ] && [ ! -L out/src/build ]; then echo "DEFECT F13: link 'build' (-> real/) was excluded by the pattern 'build/': $(ls -A out/src | tr '\n' ' ')"; exit 1; fi
+    echo "F13 ok (exit $rc)"; exit 0;;
 *) echo "unknown finding $WHICH"; exit 2;;
 esac
